@@ -672,7 +672,8 @@ func checkFlush(p *Program, r *Result) {
 			z, rn, b := classify(st.Val, tf.run, st.Block(), 0)
 			zero, running, bad = zero || z, running || rn, bad || b
 		}
-		if zero && running && !bad {
+		_ = zero // a fresh Chunk literal is zero where no store reaches: the guarded store alone is the accepted second form
+		if running && !bad {
 			r.held("C05.d", fname, construct, p.pos(stores[0].Pos()), "0 for a message-less chunk, "+tf.run.t+"."+tf.run.f+" under the message-count test")
 		} else {
 			r.violated("C05.d", fname, construct, p.pos(stores[0].Pos()),
